@@ -61,7 +61,9 @@ def make_workspace(rng, ncrates):
             else:
                 style[w] = "none"
         sub = rng.choice(["", "models/", "a/b/"])
-        files.append(dict(crate=c, rel="%s/src/%slib.rs" % (c, sub), file=f, owned=mine, ext=ext, style=style))
+        # the crate is the directory above the *last* `src` component: some crates live under another crate's `src`
+        top = c if rng.random() < 0.75 else "outer%d/src/%s" % (len(files), c)
+        files.append(dict(crate=c, rel="%s/src/%slib.rs" % (top, sub), file=f, owned=mine, ext=ext, style=style))
         imports_truth[c] = ext
     return crates, files, g
 
@@ -101,12 +103,15 @@ def run(check):
         lang = LANGS[w % 6]
         ncr = rng.randint(1, 5)
         crates, files, g = make_workspace(rng, ncr)
+        # the workspace itself may be checked out below a directory called `src` (~/src/project/…)
+        root = rng.choice(["ws", "ws", "src/ws", "code/src/proj"])
         with Scratch() as sc:
             for f in files:
-                sc.write("ws/" + f["rel"], render_file(f["file"]))
-            sc.write("ws/not_a_crate/readme.rs", "#[typeshare]\npub struct Orphan { pub a: u8 }\n")   # no `src` above: belongs to no crate
-            r = run_cli(["--lang", lang, "-d", sc.path("out")] + lang_args(lang) + [sc.path("ws")], cwd=sc.dir)
-            r1 = run_cli(["--lang", lang, "-o", sc.path("single." + EXT[lang])] + lang_args(lang) + [sc.path("ws")], cwd=sc.dir)
+                sc.write(root + "/" + f["rel"], render_file(f["file"]))
+            if "src" not in root.split("/"):
+                sc.write(root + "/not_a_crate/readme.rs", "#[typeshare]\npub struct Orphan { pub a: u8 }\n")   # no `src` above: belongs to no crate
+            r = run_cli(["--lang", lang, "-d", sc.path("out")] + lang_args(lang) + [sc.path(root)], cwd=sc.dir)
+            r1 = run_cli(["--lang", lang, "-o", sc.path("single." + EXT[lang])] + lang_args(lang) + [sc.path(root)], cwd=sc.dir)
             outs = {}
             if os.path.isdir(sc.path("out")):
                 for fn in sorted(os.listdir(sc.path("out"))):
@@ -115,6 +120,7 @@ def run(check):
         cross = sum(len(f["ext"]) for f in files)
         check.saw((lang, json.dumps([f["rel"] for f in files]), w), nontrivial=ncr >= 2 and cross > 0)
         check.count("%s crates=%d" % (lang, ncr))
+        check.count("layout root=%s nested=%d" % (root, sum(1 for f in files if f["rel"].startswith("outer"))))
         if r["rc"] != 0:
             # generation-time errors (e.g. OffsetDateTime in Kotlin/Swift/Scala, generics in Go) are not C14's business
             check.count("generation-error")
@@ -185,7 +191,7 @@ def run(check):
                             impl=outs, failing_input=True)
             return
         # the tie: pipeline + back-end model on the same workspace
-        jobs = [{"crate": f["crate"].replace("-", "_"), "file_name": file_name(lang, f["crate"]), "path": "ws/" + f["rel"], "file": f["file"]} for f in files]
+        jobs = [{"crate": f["crate"].replace("-", "_"), "file_name": file_name(lang, f["crate"]), "path": root + "/" + f["rel"], "file": f["file"]} for f in files]
         cfg = {"package": "proto" if lang == "go" else "com.example", "version_header": True, "type_mappings": {}}
         names = set().union(*[l2.names_of(f["file"]) for f in files])
         mreq, _, _ = l2.requests(lang, cfg, jobs, g, multi_file=True)
@@ -206,8 +212,44 @@ def run(check):
         if len(check.samples) < 3 and ncr >= 2:
             check.sample({"lang": lang, "sources": [f["rel"] for f in files], "files_written": sorted(outs)})
     witnesses(check)
+    crate_paths(check)
     check.assumptions += ["path components are taken as the OS gives them (no symlink resolution modelled)",
                           "completeness of the import clause is claimed only for plain / grouped `use` of un-renamed types (see the open findings)"]
+
+
+def crate_paths(check):
+    """L0: CrateName::find_crate_name against Files.findCrateName and the rule itself, on every path of up to 5 (6) components
+    over {src, a-b, c_d, x, lib.rs}, relative and absolute"""
+    import itertools
+    alphabet = ["src", "a-b", "c_d", "x", "lib.rs"]
+    maxlen = 6 if check.thorough else 5
+    paths = []
+    for n in range(1, maxlen + 1):
+        for comps in itertools.product(alphabet, repeat=n):
+            paths.append(list(comps))
+    paths += [["/"] + p for p in paths if len(p) <= 4]
+    mreq = [[S("crate-name"), [c for c in p], S(LANGS[i % 6])] for i, p in enumerate(paths)]
+    rreq = [{"op": "crate_name", "path": ("/" + "/".join(p[1:])) if p[0] == "/" else "/".join(p)} for p in paths]
+    ms, rs = model(mreq, with_unicode=False), runner(rreq)
+    for i, (p, ma, ra) in enumerate(zip(paths, ms, rs)):
+        idx = max((k for k, c in enumerate(p) if c == "src"), default=None)
+        want = p[idx - 1].replace("-", "_") if idx is not None and idx >= 1 else None
+        check.saw(("crate-path", "/".join(p)), nontrivial=p.count("src") >= 1)
+        if p.count("src") >= 2:
+            check.count("paths with several src components")
+        if ra.get("ok") != want:
+            check.violation("find_crate_name(%r) = %r, the directory above the last `src` component is %r" % (rreq[i]["path"], ra.get("ok"), want),
+                            case=rreq[i], impl=ra, model=ma, failing_input=True)
+            return
+        if ma.get("ok") != ra.get("ok"):
+            check.violation("find_crate_name(%r): model %r, implementation %r" % (rreq[i]["path"], ma.get("ok"), ra.get("ok")),
+                            case=rreq[i], impl=ra, model=ma, failing_input=False,
+                            broken="correspondence L0 find_crate_name (theorem TsV.C14.findCrateName_spec)")
+            return
+        if ma.get("ok") is not None and ma.get("file") != file_name(LANGS[i % 6], p[idx - 1]):
+            check.violation("output file name for crate %r: model %r, oracle %r" % (p[idx - 1], ma.get("file"), file_name(LANGS[i % 6], p[idx - 1])),
+                            case=rreq[i], model=ma, failing_input=False, broken="model Files.outputFileName vs the check's file_name")
+            return
 
 
 def witnesses(check):
